@@ -30,6 +30,7 @@ type wfCase struct {
 	Levels, Layers, Prog int
 	TileW, TileH         int
 	K                    int
+	ROI                  int // 0 none; n > 0: a MaxShift rectangle [W/8, H/8, W/2+1, H/2+1) with shift n
 }
 
 var wfNames = []string{"baseline", "extended8", "extended12", "lossless", "sv1", "jpegls", "jpegls-near", "j2k-rev", "j2k-irrev", "htj2k"}
@@ -60,6 +61,9 @@ func wfEncode(a wfCase) ([]byte, error) {
 	p.NumLayers = a.Layers
 	p.ProgressionOrder = uint8(a.Prog)
 	p.TileWidth, p.TileHeight = a.TileW, a.TileH
+	if a.ROI > 0 {
+		p.ROI = &jpeg2000.ROIParams{X0: a.W / 8, Y0: a.H / 8, Width: a.W/2 + 1, Height: a.H/2 + 1, Shift: a.ROI}
+	}
 	switch a.Enc {
 	case 8:
 		p.Lossless = false
@@ -384,6 +388,24 @@ func c16(c *eng.Ctx) {
 				tw, th := cdiv(sz[0], tx), cdiv(sz[1], ty)
 				for _, lv := range []int{0, 2} {
 					jobs = append(jobs, wfCase{Enc: 7, W: sz[0], H: sz[1], C: 1 + 2*((tx+ty)%2), P: 8, Levels: lv, Layers: 1 + (tx+ty)%2, TileW: tw, TileH: th, K: 1})
+				}
+			}
+		}
+	}
+	// region of interest (tile-part headers carry RGN segments) x tile grids x layers (the layered writer is a different code path)
+	for _, sz := range [][2]int{{64, 64}, {33, 17}} {
+		for _, tg := range [][2]int{{1, 1}, {2, 2}, {3, 2}, {1, 4}} {
+			for _, ly := range []int{1, 3} {
+				for _, enc := range []int{7, 8} {
+					for _, nc := range []int{1, 3} {
+						for _, shift := range []int{3, 9} {
+							tw, th := cdiv(sz[0], tg[0]), cdiv(sz[1], tg[1])
+							if tg[0] == 1 && tg[1] == 1 {
+								tw, th = 0, 0
+							}
+							jobs = append(jobs, wfCase{Enc: enc, W: sz[0], H: sz[1], C: nc, P: 8, Param: 80, Levels: 2, Layers: ly, TileW: tw, TileH: th, K: 1, ROI: shift})
+						}
+					}
 				}
 			}
 		}
